@@ -172,14 +172,14 @@ def check_tree(workdir, t1, t2, top2, order, part):
     roots = [r1, r2] if order == 0 else [r2, r1]
     P = Project(list(roots))
     part.count('trees')
-    depth = 3
+    depth = 4 if max(_depth(t1), _depth(t2)) >= 3 else 3
     # which top-level names exist in both roots (shadowing situations)
     tops = [set(os.path.splitext(n)[0] for n in os.listdir(r)) for r in (r1, r2)]
     shadow = bool(tops[0] & tops[1])
     # ---- absolute names
     names = []
     for n in range(1, depth + 1):
-        for parts in itertools.product(ALPHA, repeat=n):
+        for parts in itertools.product(ALPHA if n <= 3 else ('vp', 'vq', 'vm'), repeat=n):
             names.append('.'.join(parts))
     for name in names:
         part.count('names_resolved')
@@ -230,6 +230,10 @@ def check_tree(workdir, t1, t2, top2, order, part):
     return out
 
 
+def _depth(c):
+    return 1 + max([_depth(sub) for _n, sub in c[1]] or [0])
+
+
 def strip(x, workdir):
     return (x[0], x[1].replace(workdir, '') if isinstance(x[1], str) else x[1])
 
@@ -275,6 +279,19 @@ def tree_pairs(tier):
     for t1 in roots1:
         for t2 in roots2:
             yield t1, t2, ()
+    # the same package CHAIN in both roots with different modules at every level (shadowing at depth 2 and 3)
+    def chain(mods):
+        c = (mods[-1], ())
+        for i in range(len(mods) - 2, -1, -1):
+            c = (mods[i], ((PKGS[i % 2], c),))
+        return c
+    small = [(), ('vm',)]
+    for d in (2, 3, 4):
+        combos = list(itertools.product(small, repeat=d))
+        for m1 in combos:
+            for m2 in combos:
+                if m1 != m2 and (d < 4 or tier != 'quick'):
+                    yield chain(m1), chain(m2), ()
     # a top-level MODULE in root 2 with the name of a top-level PACKAGE of root 1 (and vice versa)
     for t1 in d1:
         have = {p for p, _ in t1[1]}
